@@ -59,18 +59,13 @@ impl Case for History {
 }
 
 fn coins_of(f: &[(u8, u16)]) -> Vec<Coin> {
-    // merge duplicates, keep denoms sorted (cw-multi-test normalises coins)
-    let mut m = std::collections::BTreeMap::new();
-    for (d, a) in f {
-        if *a > 0 {
-            *m.entry(DENOMS[*d as usize % 2]).or_insert(0u128) += *a as u128;
-        }
-    }
-    m.into_iter().map(|(d, a)| Coin { denom: d.to_string(), amount: Uint128::new(a) }).collect()
+    // deliberately *not* normalised: any order, repeated denoms and zero amounts are passed on
+    // exactly as generated (the chain, not the proxy, decides what to do with them)
+    f.iter().map(|(d, a)| Coin { denom: DENOMS[*d as usize % 2].to_string(), amount: Uint128::new(*a as u128) }).collect()
 }
 
 fn funds_strategy() -> BoxedStrategy<Vec<(u8, u16)>> {
-    prop_oneof![2 => Just(vec![]), 4 => proptest::collection::vec((0u8..2, 1u16..300), 1..3)].boxed()
+    prop_oneof![2 => Just(vec![]), 4 => proptest::collection::vec((0u8..2, prop_oneof![6 => 1u16..300, 1 => Just(0u16)]), 1..4)].boxed()
 }
 
 fn history_strategy(handlers: &[HandlerView], inst: &HandlerView, migrate: Option<&HandlerView>, max_ops: usize) -> BoxedStrategy<History> {
